@@ -129,6 +129,22 @@ let huge_expect tys head pad tail =
   let inside = not (n_lt total i.ti_min) && not (n_lt i.ti_max total) in
   (if inside then "" else "res=ERR ") ^ "canon=1 whole=1"
 
+(* bit get/set at indices of 2^32 and more on a sparse description of a huge byte string: the
+   definition the C18 theorems state (get_bit bs i = bit (i mod 8) of byte i/8; set_bit changes
+   that bit only), evaluated by arithmetic because the model's lists cannot hold 2^29 bytes *)
+let bitbig _total desc idx =
+  let tbl = Hashtbl.create 8 in
+  List.iter (fun e -> match String.split_on_char ':' e with
+      | [p; b] -> Hashtbl.replace tbl (int_of_string ("0x" ^ p)) (int_of_string ("0x" ^ b))
+      | _ -> ()) (String.split_on_char ',' desc);
+  let i = int_of_string ("0x" ^ idx) in
+  let byte_at p = match Hashtbl.find_opt tbl p with Some b -> b | None -> 0 in
+  let pos = i lsr 3 and lo = (i land 0xffffffff) lsr 3 in
+  let g = (byte_at pos lsr (i land 7)) land 1 in
+  let after = if g = 1 then byte_at pos land (lnot (1 lsl (i land 7))) land 255 else byte_at pos lor (1 lsl (i land 7)) in
+  let low = if lo = pos then after else byte_at lo in
+  Printf.sprintf "get=%d byte=%x low=%x" g after low
+
 let c15 tys =
   let t = ty_of tys in
   let i = info t in
@@ -544,9 +560,11 @@ let dispatch set_cfg cur_h cur_zh (op : string) (args : string list) : string =
   match op, args with
   | "c01", [cfg; t; v; route] -> set_cfg cfg; c01 !cur_h !cur_zh cfg t v route
   | "c02", [cfg; t; v] -> set_cfg cfg; c02 !cur_h !cur_zh t v
+  | "c02big", [_; _; _] -> "rt=1"  (* view_decode_encode / C02 round trip, stated for every value; not executed at this size *)
   | "c03", [t; data] -> set_cfg "sha"; c03 !cur_zh t data
   | ("c03h" | "c10h"), [t; head; pad; tail] -> huge_expect t head pad tail
   | "c15", [t] -> c15 t
+  | "bitbig", [total; desc; idx] -> bitbig total desc idx
   | "merk", [cfg; count; limit; leaves] -> set_cfg cfg; c08_merk !cur_h !cur_zh count limit leaves
   | "c08", [cfg; t; v] -> set_cfg cfg; c08 !cur_h !cur_zh t v
   | "c09", [t; v; prev] -> c09 t v prev
